@@ -67,6 +67,7 @@ type c10Case struct {
 	Txs       []string  `json:"txs,omitempty"` // descriptions with result codes
 	OwnStakeDiff []string `json:"own_stake_diff,omitempty"`
 	Quiet     int64     `json:"quiet"`
+	LastRefused string  `json:"last_refused,omitempty"` // the last transaction of the block was refused by Validate (cause)
 	Released  []int     `json:"released,omitempty"`  // validators whose RELEASE succeeded in this block
 	TwinDiff  string    `json:"twin_diff,omitempty"` // a replica restarted after the release returned other validator updates
 	Crashed   bool      `json:"crashed,omitempty"` // the node exited (logger.Fatal) inside EndBlock of this block
@@ -126,6 +127,7 @@ type c10Scenario struct {
 	Bvd    int64
 	Blocks int
 	Ties   bool
+	Variant   int  // kind "refused_last": 0 unstake below the minimum, 1 guilty verdict, 2 out-staked
 	ByVerdict bool // kind "release": freeze by a guilty verdict (else by missed votes)
 }
 
@@ -168,6 +170,11 @@ func c10Scen(r *rand.Rand, kind string) *c10Scenario {
 		nv, ne, sc.Top, sc.Blocks, sc.Ties, sc.Bvd = 4, 0, 4, 10, false, 6
 	case "restake":
 		nv, ne, sc.Top, sc.Blocks, sc.Ties = 3, 0, 4, 9, false
+	case "refused_last":
+		// a validator leaves the election (below the minimum / frozen / out-staked) and every block ends
+		// with a transaction that Validate refuses
+		sc.Variant = r.Intn(3)
+		nv, ne, sc.Top, sc.Blocks, sc.Ties, sc.Bvd = 4, 1, 4, 10, false, 4
 	case "release":
 		// freeze (missed votes or guilty verdict) -> wait -> RELEASE -> at least 8 more blocks
 		nv, ne, sc.Top, sc.Blocks, sc.Ties, sc.Bvd = 4, r.Intn(2), int64(4+r.Intn(2)), 26, false, 4
@@ -332,6 +339,22 @@ func (g *c10Gen) block(h int64, rep *Replica) (BlockIn, []string) {
 		}
 		if h == 4 {
 			add(txUnstake(sc.Extra[0], oltAmt("7000"), g.memo()), "unstake extra0 7000")
+		}
+		return in, descr
+	case "refused_last":
+		if h == 3 {
+			switch sc.Variant {
+			case 0:
+				a := fmt.Sprintf("%d", g.stakeOf(d, sc.Vals[2])-500)
+				add(txUnstake(sc.Vals[2], oltAmt(a), g.memo()), "unstake val2 down to 500")
+			case 1:
+				add(txAllegation(sc.Vals[0], "c10ref", sc.Vals[3].Val.Addr, h, g.memo()), "allegation val0 against val3")
+				for i := 0; i < 3; i++ {
+					add(txAllegationVote(sc.Vals[i], "c10ref", 1, g.memo()), fmt.Sprintf("vote yes val%d", i))
+				}
+			default:
+				add(txStake(sc.Extra[0], oltAmt("9000"), g.memo()), "stake extra0 9000 (out-stakes the weakest)")
+			}
 		}
 		return in, descr
 	case "restake":
@@ -513,6 +536,7 @@ func c10Run(r *rand.Rand, kind string, hist int) []c10Case {
 	rep := NewReplica(sc.genesis(), ReplicaOpts{NodeVal: sc.Vals[0].Val})
 	defer rep.Close()
 	rep.InitChain()
+	rr := rand.New(rand.NewSource(r.Int63())) // generator of the Validate-refused last transactions
 	gen := &c10Gen{r: r, sc: sc, lazy: -1}
 	// kind "release": a second replica runs the same blocks and is restarted (fresh process memory)
 	// after the block of the release; its validator updates must equal the long-running node's
@@ -528,6 +552,28 @@ func c10Run(r *rand.Rand, kind string, hist int) []c10Case {
 		h := int64(b + 1)
 		prev := rep.Dump()
 		in, descr := gen.block(h, rep)
+		refusedCause := ""
+		if h >= 2 && (kind == "refused_last" || rr.Intn(3) == 0) {
+			// the block ends with a transaction that handler.Validate refuses in DeliverTx
+			v := sc.Vals[rr.Intn(len(sc.Vals))]
+			memo := fmt.Sprintf("c10refused%d", h)
+			data, _ := staking.Stake{ValidatorAddress: v.Val.Addr, StakeAddress: v.Stake.Addr, ValidatorPubKey: v.Val.Pub, ValidatorECDSAPubKey: v.Val.Pub, NodeName: "n", Stake: oltAmt("7")}.Marshal()
+			var tx []byte
+			switch rr.Intn(3) {
+			case 0:
+				refusedCause = "bad signature"
+				tx = signTx(action.STAKE, data, GAS, memo, sc.Rogue[0].Stake, sc.Rogue[0].Val)
+			case 1:
+				refusedCause = "fee below minimum"
+				tx = signRaw(action.RawTx{Type: action.STAKE, Data: data, Fee: action.Fee{Price: action.Amount{Currency: "OLT", Value: *amt("1")}, Gas: GAS}, Memo: memo}, v.Stake, v.Val)
+			default:
+				refusedCause = "stake of more than the staker owns"
+				tx = txStake(v, oltAmt("900000000"), memo)
+			}
+			ntx := len(in.Txs)
+			in.Txs = append(in.Txs, tx)
+			descr = append(descr[:ntx:ntx], append([]string{"refused-by-validate (" + refusedCause + ")"}, descr[ntx:]...)...)
+		}
 		c := c10Case{Hist: hist, Kind: kind, Height: h, Cands: []c10Cand{}, Mal: []int{}, LA: []int{}}
 		if h > 1 {
 			for _, v := range c10Validators(prev) {
@@ -573,6 +619,13 @@ func c10Run(r *rand.Rand, kind string, hist int) []c10Case {
 				lg = lg[:90]
 			}
 			c.Txs = append(c.Txs, fmt.Sprintf("%s -> %d %s", descr[i], res.Code, lg))
+		}
+		if refusedCause != "" && len(c.Txs) > 0 {
+			if strings.Contains(c.Txs[len(c.Txs)-1], "-> 0") {
+				c.LastRefused = "NOT REFUSED: " + refusedCause
+			} else {
+				c.LastRefused = refusedCause
+			}
 		}
 		for i := len(in.Txs); i < len(descr); i++ {
 			c.Txs = append(c.Txs, descr[i])
@@ -781,7 +834,7 @@ func c10Main(args []string) int {
 		must(ioutil.WriteFile(*child, bz, 0644))
 		return 0
 	}
-	kinds := []string{"e10", "unstake_all", "ghost", "frozen", "release", "restake", "release", "mixed", "mixed", "mixed", "mixed", "mixed"}
+	kinds := []string{"e10", "unstake_all", "ghost", "frozen", "release", "restake", "refused_last", "mixed", "mixed", "mixed", "mixed", "mixed"}
 	cases := []c10Case{}
 	for i := 0; i < *n; i++ {
 		kind := kinds[i%len(kinds)]
